@@ -345,6 +345,7 @@ func TestC08Failures(t *testing.T) {
 			entry = cl.Nodes[1]
 			cl.Nodes[0].Up = false
 			cl.Nodes[0].Srv.VerifKill()
+			cl.HoldPorts(cl.Nodes[0])
 			time.Sleep(time.Duration(c.Int("afterKillMs", 0, 600)) * time.Millisecond)
 			res := get("e1.piko.test", nil)
 			expect(res, 502, "upstream node killed")
